@@ -394,5 +394,7 @@ func blackBox(c *hlib.Ctx, prop string) {
 		bbCloseWhileStalledAndWriting(c)
 		bbConcurrentClosers(c, false)
 		bbPollerStaysPrompt(c)
+		bbPollerWindow(c)
+		bbSinkAnswersC12(c)
 	}
 }
